@@ -229,12 +229,15 @@ theorem closed_integrate (o : Obj) (t : Tbl o) (st : LState) (hst : Inv o st) (v
   · simp only [h, if_true]; exact closed_integCore o t st hst v2 v1 (-1)
   · simp only [h, if_false]; exact closed_integCore o t st hst v1 v2 1
 
-/-- the value `Local_Minimum/Maximum` forms from the end values and the knots `i1+1 … i2` -/
-def extVal (o : Obj) (isMax : Bool) (fl fr : Rat) (i1 i2 : Nat) : Rat :=
+/-- the value `Local_Minimum/Maximum` forms from the end values and the knots `first … last`
+    (`i1+1 … i2`, plus the end knot when a limit lies in the extrapolation zone, fix ede24b1) -/
+def extVal (o : Obj) (isMax : Bool) (v1 v2 fl fr : Rat) (i1 i2 : Nat) : Rat :=
   let pick := if isMax then rmax else rmin
-  if i1 = i2 then pick fl fr
+  let first := if v1 < o.x 0 then i1 else i1 + 1
+  let last := if v2 > o.x (o.N - 1) then i2 + 1 else i2
+  if first > last then pick fl fr
   else
-    let ks := o.knotValues i1 i2
+    let ks := o.knotValues first last
     let mn := o.pref * listMin ks 0
     let mx := o.pref * listMax ks 0
     pick (pick (pick fl mn) mx) fr
@@ -246,22 +249,27 @@ def pLocalExt (o : Obj) (isMax : Bool) (v1 v2 : Rat) : Except Err Rat :=
     | .error e => .error e
     | .ok i1 => match locateCanon o.N o.x v2 with
       | .error e => .error e
-      | .ok i2 => .ok (extVal o isMax (o.cubicAt i1 v1) (o.cubicAt i2 v2) i1 i2)
+      | .ok i2 => .ok (extVal o isMax v1 v2 (o.cubicAt i1 v1) (o.cubicAt i2 v2) i1 i2)
 
 /-- the last stage of `Local_*` -/
-def extFin (o : Obj) (isMax : Bool) (fl fr : Rat) (i1 i2 : Nat) (od : Obj) : Except Err (Rat × Obj) :=
+def extFin (o : Obj) (isMax : Bool) (v1 v2 fl fr : Rat) (i1 i2 : Nat) (od : Obj) : Except Err (Rat × Obj) :=
   let pick := if isMax then rmax else rmin
-  if i1 = i2 then pure (pick fl fr, od)
+  let first := if v1 < o.x 0 then i1 else i1 + 1
+  let last := if v2 > o.x (o.N - 1) then i2 + 1 else i2
+  if first > last then pure (pick fl fr, od)
   else
-    let ks := o.knotValues i1 i2
+    let ks := o.knotValues first last
     let mn := o.pref * listMin ks 0
     let mx := o.pref * listMax ks 0
     pure (pick (pick (pick fl mn) mx) fr, od)
 
-theorem extFin_eq (o : Obj) (isMax : Bool) (fl fr : Rat) (i1 i2 : Nat) (od : Obj) :
-    extFin o isMax fl fr i1 i2 od = .ok (extVal o isMax fl fr i1 i2, od) := by
+theorem extFin_eq (o : Obj) (isMax : Bool) (v1 v2 fl fr : Rat) (i1 i2 : Nat) (od : Obj) :
+    extFin o isMax v1 v2 fl fr i1 i2 od = .ok (extVal o isMax v1 v2 fl fr i1 i2, od) := by
   unfold extFin extVal
-  by_cases h : i1 = i2
+  simp only
+  generalize (if v1 < o.x 0 then i1 else i1 + 1) = first
+  generalize (if v2 > o.x (o.N - 1) then i2 + 1 else i2) = last
+  by_cases h : first > last
   · simp only [h, if_true]; rfl
   · simp only [h, if_false]; rfl
 
@@ -271,7 +279,7 @@ def extCore (o : Obj) (isMax : Bool) (v1 v2 : Rat) : Except Err (Rat × Obj) := 
   let (fr, ob) ← oa.interpolate v2
   let (i1, oc) ← ob.locate v1
   let (i2, od) ← oc.locate v2
-  extFin o isMax fl fr i1 i2 od
+  extFin o isMax v1 v2 fl fr i1 i2 od
 
 theorem localExt_core (o : Obj) (isMax : Bool) (v1 v2 : Rat) :
     o.localExt isMax v1 v2 = if v2 < v1 then .error .diag else extCore o isMax v1 v2 := by
@@ -302,7 +310,7 @@ theorem closed_localExt (o : Obj) (t : Tbl o) (st : LState) (hst : Inv o st) (is
           let (fr, ob) ← Obj.interpolate { o with st := nst st i1 } v2
           let (i1', oc) ← ob.locate v1
           let (i2, od) ← oc.locate v2
-          extFin o isMax (o.cubicAt i1 v1) fr i1' i2 od : Except Err (Rat × Obj)) = _
+          extFin o isMax v1 v2 (o.cubicAt i1 v1) fr i1' i2 od : Except Err (Rat × Obj)) = _
         rw [ha]; rfl
       | ok i2 =>
         rw [h2] at ha
@@ -316,17 +324,17 @@ theorem closed_localExt (o : Obj) (t : Tbl o) (st : LState) (hst : Inv o st) (is
           let (fr, ob) ← Obj.interpolate { o with st := nst st i1 } v2
           let (i1', oc) ← ob.locate v1
           let (i2, od) ← oc.locate v2
-          extFin o isMax (o.cubicAt i1 v1) fr i1' i2 od : Except Err (Rat × Obj)) = _
+          extFin o isMax v1 v2 (o.cubicAt i1 v1) fr i1' i2 od : Except Err (Rat × Obj)) = _
         rw [ha]
         show (do
           let (i1', oc) ← Obj.locate { o with st := nst (nst st i1) i2 } v1
           let (i2', od) ← oc.locate v2
-          extFin o isMax (o.cubicAt i1 v1) (o.cubicAt i2 v2) i1' i2' od : Except Err (Rat × Obj)) = _
+          extFin o isMax v1 v2 (o.cubicAt i1 v1) (o.cubicAt i2 v2) i1' i2' od : Except Err (Rat × Obj)) = _
         rw [hc]
         show (do
           let (i2', od) ← Obj.locate { o with st := nst (nst (nst st i1) i2) i1 } v2
-          extFin o isMax (o.cubicAt i1 v1) (o.cubicAt i2 v2) i1 i2' od : Except Err (Rat × Obj)) = _
+          extFin o isMax v1 v2 (o.cubicAt i1 v1) (o.cubicAt i2 v2) i1 i2' od : Except Err (Rat × Obj)) = _
         rw [hd]
-        exact extFin_eq o isMax _ _ i1 i2 _
+        exact extFin_eq o isMax v1 v2 _ _ i1 i2 _
 
 end Lp.C09
